@@ -231,6 +231,29 @@ fn main() {
         }
     }
 
+    // (d) words: identifiers spelled like the phase names of zerv, PEP 440, Maven and npm, in three cases, alone and joined to a
+    // number (glued, dotted, hyphenated, underscored = outside the grammar), in pre-release and build position, singly and in
+    // pairs - to SemVer they are ordinary identifiers and come back character for character
+    {
+        let words = ["alpha", "beta", "rc", "dev", "post", "epoch", "a", "b", "c", "pre", "preview", "snapshot", "final", "nightly", "canary", "next", "v", "x", "r", "p"];
+        let numbers = ["", "0", "1", "2", "10", "01", "007", "4294967296", "18446744073709551616"];
+        let mut idents: Vec<String> = vec![];
+        for w in words { for cased in [w.to_string(), w.to_uppercase(), format!("{}{}", w[..1].to_uppercase(), &w[1..])] { for glue in ["", ".", "-", "_"] { for n in numbers {
+            if n.is_empty() && !glue.is_empty() { continue; }
+            idents.push(format!("{cased}{glue}{n}"));
+            if !n.is_empty() && glue.is_empty() { idents.push(format!("{n}{cased}")); }
+        }}}}
+        idents.sort(); idents.dedup();
+        let templates = ["1.0.0-{W}", "1.0.0-{W}.5", "1.0.0-x.{W}", "1.0.0-0.{W}.x", "1.0.0+{W}", "1.0.0-{W}+{W}", "v1.2.3-{W}.{W}"];
+        let cases: Vec<String> = templates.iter().flat_map(|t| idents.iter().map(move |w| t.replace("{W}", w))).collect();
+        let sd = cases.par_iter().map(|x| { let mut st = Stats::default(); st.inc("word_cases"); let v = judge(x, true, &mut st); report(&ctx, x, "d", v, &mut st); st }).reduce(Stats::default, Stats::merge);
+        // pairs of lower-case word+number identifiers
+        let small: Vec<String> = words.iter().flat_map(|w| ["", "1", "10"].iter().map(move |n| format!("{w}{n}"))).collect();
+        let pairs: Vec<String> = small.iter().flat_map(|a| small.iter().map(move |b| format!("1.0.0-{a}.{b}"))).collect();
+        let sd2 = pairs.par_iter().map(|x| { let mut st = Stats::default(); st.inc("word_cases"); let v = judge(x, false, &mut st); report(&ctx, x, "d", v, &mut st); st }).reduce(Stats::default, Stats::merge);
+        sc = sc.merge(sd).merge(sd2);
+    }
+
     // model cross-check: the `semver` crate must agree with R-SV wherever both apply
     // (no `v` prefix, numbers within u64) on all of (a) up to length 6 and the whole (b) base language
     let xc = |x: &str, st: &mut Stats| {
